@@ -64,6 +64,10 @@ def extract():
 
 
 # --------------------------------------------------------------------------- step 2: prove
+def tie_names(path):
+    return [m.group(1) for l in open(path) for m in [re.match(r"--\s*@tie\s+(\S+)", l)] if m]
+
+
 def theorem_names(path):
     names, lines = [], []
     ns = None
@@ -116,7 +120,8 @@ def prove(prop, thorough):
     module = "Rsactor.Props." + prop
     path = os.path.join(LEAN, "Rsactor", "Props", prop + ".lean")
     ns, names, lines = theorem_names(path)
-    res = {"module": module, "theorems": names, "failed": [], "axioms": {}, "build_log_tail": ""}
+    ties = tie_names(path)
+    res = {"module": module, "theorems": names + [t.split(".")[-1] for t in ties], "failed": [], "axioms": {}, "build_log_tail": ""}
     rc, out, err = sh(["lake", "build", module, "driver"], cwd=LEAN, timeout=3000)
     log = out + err
     res["build_log_tail"] = log[-3000:]
@@ -129,6 +134,8 @@ def prove(prop, thorough):
             if f.endswith(f"Props/{prop}.lean"):
                 cand = [n for n, l0 in zip(names, lines) if l0 <= ln]
                 failed.add(cand[-1] if cand else f"{f}:{ln}")
+            elif "/Ties/" in f or f.startswith("Rsactor/Ties/"):
+                failed.add(os.path.basename(f)[:-5] + " (shape lemma: the source no longer has the shape the model assumes)")
             else:
                 failed.add(f"{f}:{ln}")
         if not failed:
@@ -143,6 +150,8 @@ def prove(prop, thorough):
         f.write(f"import {module}\n")
         for n in names:
             f.write(f"#print axioms {ns}.{n}\n")
+        for t in ties:
+            f.write(f"#print axioms {t}\n")
     rc, out, err = sh(["lake", "env", "lean", audit], cwd=LEAN, timeout=1200)
     cur = None
     text = out + err
@@ -151,7 +160,7 @@ def prove(prop, thorough):
             res["axioms"][m.group(1).split(".")[-1]] = [a.strip() for a in m.group(2).replace("\n", " ").split(",") if a.strip()]
         else:
             res["axioms"][m.group(3).split(".")[-1]] = []
-    for n in names:
+    for n in names + [t.split(".")[-1] for t in ties]:
         ax = res["axioms"].get(n)
         if ax is None:
             res["failed"].append(f"{n} (no axiom report)")
